@@ -921,7 +921,7 @@ def run_check(prop, tier, want, budgets=False):
                                    (2 if tier == "quick" else 3, "TRUE" if template else "FALSE"))
                 gch = run_tlc("SemChains", cc, name, workers=2, cases_suffix="-ch%s%d" % (template, P), timeout=600)
                 for kk, x in enumerate(read_ndjson(gch.cases_path)):
-                    if x["toks"][0] not in ("DL", "D0"):
+                    if x["toks"][0] not in ("DL", "D0") or "Gt" in x["toks"]:      # family `viasig` is for the effects executor (C09) only
                         continue
                     for j in range(inst):
                         text, prog, ranges, span = instantiate(x["toks"], P, seed * 104729 + kk * 7 + j, template)
